@@ -358,7 +358,9 @@ where
         
         #[cfg(feature = "verif_hooks")]
         crate::verif::yield_point(crate::verif::SITE_GET_BEFORE_CACHE, key.id);
+        let mut computed = false;
         let res = self.storage.cache.get_or_compute(key, || {
+            computed = true;
             #[cfg(feature = "verif_hooks")]
             crate::verif::yield_point(crate::verif::SITE_GET_IN_COMPUTE, key.id);
             match self.resolve(key).and_then(|p| T::from_primitive(p, self)) {
@@ -382,6 +384,8 @@ where
                     }
                 }
             }
+            // the load as the requested type has just failed
+            Err(e) if computed => Err(PdfError::Shared { source: e }),
             Err(_) => {
                 // The cached error may stem from loading this object as a different type:
                 // load it as the type that is asked for now.
